@@ -478,7 +478,11 @@ func wasmExecNode() (node, script string, ok bool) {
 	return "", "", false
 }
 
-func checkC19Wasm(raw json.RawMessage) (ev.Result, error) {
+func checkC19Wasm(raw json.RawMessage) (ev.Result, error) { return checkWasm(raw) }
+
+// checkWasm is shared by C19 (stubs, constants, no filter on a table-less target) and C07 ("an architecture without
+// syscall tables": error and no program, never a panic - here with the architecture being the real build target).
+func checkWasm(raw json.RawMessage) (ev.Result, error) {
 	var c c19WasmCase
 	if err := json.Unmarshal(raw, &c); err != nil {
 		return ev.Result{}, ev.Inconclusivef("bad case: %v", err)
@@ -594,4 +598,25 @@ func TestC19JsWasm(t *testing.T) {
 		c.Corpus = append(c.Corpus, json.RawMessage(hand))
 	}
 	ev.CheckOne(t, "C19", "jswasm", c, checkC19Wasm)
+}
+
+func TestC07JsWasm(t *testing.T) {
+	ev.Register("C07", "jswasm", checkWasm)
+	seed := int(shardSeed() % 1000000)
+	var c c19WasmCase
+	for _, p := range corpusPolicies(ev.Scale(40, 400), seed+9999) {
+		b, _ := json.Marshal(p)
+		c.Corpus = append(c.Corpus, b)
+	}
+	for _, hand := range []string{
+		`{"arch":"x86_64","default":2147418112,"groups":[{"action":2147418112}]}`,
+		`{"arch":"x86_64","default":327680,"groups":[{"action":2147418112,"names":["read","read"]}]}`,
+		`{"arch":"x86_64","default":327680,"groups":[{"action":2147418112,"names":["no_such_syscall"]}]}`,
+		`{"arch":"x86_64","default":12345,"groups":[{"action":2147418112,"names":["read"]}]}`,
+		`{"arch":"x86_64","default":327680,"groups":[]}`,
+		`{"arch":"x86_64","default":327680,"groups":[{"action":0,"conds":[{"name":"read","conds":[{"arg":6,"op":"Equal","val":1}]}]}]}`,
+	} {
+		c.Corpus = append(c.Corpus, json.RawMessage(hand))
+	}
+	ev.CheckOne(t, "C07", "jswasm", c, checkWasm)
 }
